@@ -43,6 +43,10 @@ theorem invariant_of_steps (P : St → Prop) (h0 : P {})
     | store x => exact hstore s x s' ih hst
     | ackLost ids => exact hackLost s ids s' ih hst
     | storeLost x => exact hstoreLost s x s' ih hst
+    | plain mid m =>
+      simp only [Mtv.Client.step, Option.some.injEq] at hst
+      subst hst
+      exact h5 s ih
     | recv mid seq m =>
       simp only [Mtv.Client.step, Option.some.injEq] at hst
       subst hst
